@@ -134,6 +134,13 @@ func offsetsFor(t *sim.Tape, in *Input, all bool, nsample int) []int {
 			add(m + d)
 		}
 	}
+	// where buffers of the usual sizes fill up exactly (once, and after
+	// doubling from the usual starting sizes)
+	for _, b := range []int{256, 512, 1024, 1536, 2048, 3072, 3584, 4096, 7168, 7680, 8192, 15872, 16384, 32768, 65536} {
+		for d := -1; d <= 1; d++ {
+			add(b + d)
+		}
+	}
 	for i := 0; i < nsample; i++ {
 		add(t.Choose(n + 1))
 	}
